@@ -90,6 +90,9 @@ class OldCollector(ast.NodeTransformer):
         self.olds = []
 
     def visit_Call(self, node):
+        if isinstance(node.func, ast.Name) and node.func.id == 'implies' and len(node.args) == 2:
+            a, b = self.visit(node.args[0]), self.visit(node.args[1])
+            return ast.BoolOp(op=ast.Or(), values=[ast.UnaryOp(op=ast.Not(), operand=a), b])
         if isinstance(node.func, ast.Name) and node.func.id == 'old':
             self.olds.append(node.args[0])
             return ast.Name(id='__old_%d' % (len(self.olds) - 1), ctx=ast.Load())
